@@ -87,6 +87,10 @@ deriving DecidableEq, Repr
 structure GGhost where
   staleTopo : List String := []
   lostTopo : List String := []
+  /-- ingress links found without their (service <- gateway) pair right after a command that runs
+      `cleanupGatewayWildcards` (a deregistration, the delete of a service-defaults entry): the wildcard link of one
+      listener went, and `deleteGatewayServiceTopologyMapping` deleted the pair another listener's link still needs -/
+  lostIngress : List String := []
 deriving DecidableEq, Repr
 
 /-- the catalog with gateway-services and mesh-topology -/
@@ -261,30 +265,45 @@ def sidecarDeclared (x : XState) (k : String) : Bool :=
 
 def hasTopo (t : List TopoRow) (k : String) : Bool := (tfind TopoRow.pk k t).isSome
 
+/-- the ingress links (not the wildcard rows) whose pair the topology lacks -/
+def ingressMissing (T : GTabs) : List String :=
+  ((T.gw.filter fun m => m.kind == .ingressGateway && m.service != "*").map fun m => pk2 m.service m.gateway).filter
+    fun k => !hasTopo T.topo k
+
 /-- the pairs a row declares when it is a sidecar -/
 def pairsOf (r : Svc × SvcX) : List String :=
   if r.2.kind = .connectProxy then r.2.ups.map fun u => pk2 u r.2.dest else []
 
-/-- GHOST after the hooks of `ensureServiceTxn` (`x'`: the state after the registration, `t'`: the topology after them) -/
-def ghostEnsure (gh : GGhost) (x' : XState) (t t' : List TopoRow) (q : SvcReq) (existing : Option (Svc × SvcX)) : GGhost :=
-  let isConn := q.kind = .connectProxy ∨ q.native = true
-  let c1 := if isConn ∧ q.kind ≠ .connectProxy then q.ups.map fun u => pk2 u q.dest else []
-  let c2 := match existing with
+/-- the pairs a registration may leave without a declaring sidecar: the upstreams of a connect-native instance, the
+    pairs the instance declared before -/
+def staleCands (q : SvcReq) (existing : Option (Svc × SvcX)) : List String :=
+  (if (q.kind = .connectProxy ∨ q.native = true) ∧ q.kind ≠ .connectProxy then q.ups.map fun u => pk2 u q.dest else []) ++
+  (match existing with
     | some r => pairsOf r
-    | none => []
-  let dropped := if isConn then
-      (match existing with
-        | some r => (r.2.ups.filter fun u => !q.ups.contains u).map fun u => pk2 u q.dest
-        | none => [])
-    else []
-  let gone := (t.filter fun row => !hasTopo t' row.pk).map TopoRow.pk
-  { staleTopo := gh.staleTopo ++ (c1 ++ c2).filter (fun k => hasTopo t' k && !sidecarDeclared x' k),
-    lostTopo := gh.lostTopo ++ (dropped ++ gone).filter (fun k => !hasTopo t' k && localDeclared x' k) }
+    | none => [])
+
+/-- the keys `updateMeshTopology` deletes: upstreams the existing row had and the request does not name -/
+def droppedKeys (q : SvcReq) (existing : Option (Svc × SvcX)) : List String :=
+  if q.kind = .connectProxy ∨ q.native = true then
+    (match existing with
+      | some r => (r.2.ups.filter fun u => !q.ups.contains u).map fun u => pk2 u q.dest
+      | none => [])
+  else []
+
+/-- the keys of the rows a step removed -/
+def goneKeys (t t' : List TopoRow) : List String := (t.filter fun row => !hasTopo t' row.pk).map TopoRow.pk
+
+/-- GHOST after the hooks of `ensureServiceTxn` (`x'`: the state after the registration, `t` / `t'`: the topology before / after them) -/
+def ghostEnsure (gh : GGhost) (x' : XState) (t t' : List TopoRow) (q : SvcReq) (existing : Option (Svc × SvcX)) : GGhost :=
+  { gh with
+    staleTopo := gh.staleTopo ++ (staleCands q existing).filter (fun k => hasTopo t' k && !sidecarDeclared x' k),
+    lostTopo := gh.lostTopo ++ (droppedKeys q existing ++ goneKeys t t').filter (fun k => !hasTopo t' k && localDeclared x' k) }
 
 /-- GHOST after the hooks of `deleteServiceTxn` (`t`: the topology before them, `t'`: after) -/
-def ghostDelete (gh : GGhost) (x' : XState) (t t' : List TopoRow) (r : Svc × SvcX) : GGhost :=
-  { staleTopo := gh.staleTopo ++ (pairsOf r).filter (fun k => hasTopo t' k && !sidecarDeclared x' k),
-    lostTopo := gh.lostTopo ++ ((t.filter fun row => !hasTopo t' row.pk).map TopoRow.pk).filter (fun k => localDeclared x' k) }
+def ghostDelete (gh : GGhost) (x' : XState) (t : List TopoRow) (T' : GTabs) (r : Svc × SvcX) : GGhost :=
+  { staleTopo := gh.staleTopo ++ (pairsOf r).filter (fun k => hasTopo T'.topo k && !sidecarDeclared x' k),
+    lostTopo := gh.lostTopo ++ (goneKeys t T'.topo).filter (fun k => !hasTopo T'.topo k && localDeclared x' k),
+    lostIngress := gh.lostIngress ++ ingressMissing T' }
 
 /-! ### the service / config-entry functions with their hooks -/
 
@@ -336,7 +355,7 @@ def deleteServiceG (g : GState) (p : String) (idx : Nat) (node id : String) : Ex
     match svcFind c.st node id, extFind c node id with
     | some v, some e =>
       let T' := deleteHooks g.t x' p idx v e
-      .ok { x := x', t := T', gh := ghostDelete g.gh x' g.t.topo T'.topo (v, e) }
+      .ok { x := x', t := T', gh := ghostDelete g.gh x' g.t.topo T' (v, e) }
     | _, _ => .ok { g with x := x' }
 
 def deleteServiceCasG (g : GState) (p : String) (idx cidx : Nat) (node id : String) : Except XErr (GState × Bool) :=
@@ -377,7 +396,8 @@ def configDeleteHooks (T : GTabs) (x : XState) (idx : Nat) (kind name : String) 
     if kind = "ingress-gateway" then { T2 with topo := T2.topo.filter (fun r => lc r.dn != lc name) } else T2
 
 def configDeleteG (g : GState) (idx : Nat) (kind name : String) : GState :=
-  { g with x := configDelete g.x kind name, t := configDeleteHooks g.t g.x idx kind name }
+  let T' := configDeleteHooks g.t g.x idx kind name
+  { x := configDelete g.x kind name, t := T', gh := { g.gh with lostIngress := g.gh.lostIngress ++ ingressMissing T' } }
 
 /-! ### the compound functions: the control flow of CV.Store.CatX over the G-level service functions -/
 
